@@ -84,35 +84,70 @@ theorem system_block_carries (rules : List SysRule) (inbound : Bool) (o : SysObs
       exact ⟨rfl, r, List.mem_of_find?_eq_some hf, h.1, (trips_iff_spec r o).mp (List.find?_some (p := fun r : SysRule => (r.trips o).1) hf),
         by rw [← h.2, trips_snapshot]⟩
 
+/-- once the system slot has blocked, no later slot can turn the verdict back into a pass -/
+theorem runChecks_blocked_of_sys (w : World) (res : String) (batch : Nat) (inbound : Bool)
+    (args : Option (List String)) (atts : Option (List (String × String)))
+    (h : (sysCheck w.sys inbound w.sysObs).isSome = true) :
+    (w.runChecks res batch inbound args atts).res ≠ .pass := by
+  unfold World.runChecks
+  simp only []
+  cases hc : sysCheck w.sys inbound w.sysObs with
+  | none => rw [hc] at h; cases h
+  | some p =>
+    cases hfs : flowSlot (w.ctrls res) (w.node res) w.nowNs batch with
+    | mk f rest1 =>
+      cases rest1 with
+      | mk t1 fb =>
+        simp only []
+        cases hhs : hsSlot w.hsSleepNs (w.hsCtrls res) t1 args atts batch with
+        | mk hsx rest2 =>
+          cases rest2 with
+          | mk t2 hb =>
+            simp only []
+            cases hbs : brSlot (w.breakers res) (t2 / 1000000) with
+            | mk brx rest3 =>
+              obtain ⟨bblocked, evs, hooks⟩ := rest3
+              simp only []
+              cases bblocked <;> cases hb <;> cases isoCheck (w.isoRules res) (w.node res) batch <;> cases fb <;> simp
+
 /-- world level: a tripping rule makes every inbound `build` fail (whatever the later slots say) -/
 theorem system_trip_blocks (w : World) (eid : Nat) (res : String) (batch : Nat)
-    (h : ∃ r ∈ w.sys, TripsSpec r w.sysObs) : (w.build eid res batch true).2 ≠ .pass := by
+    (args : Option (List String)) (atts : Option (List (String × String)))
+    (h : ∃ r ∈ w.sys, TripsSpec r w.sysObs) : (w.build eid res batch true args atts).2 ≠ .pass := by
   have hs := (system_decision w.sys true w.sysObs).mpr ⟨rfl, h⟩
-  have hv : w.verdict res batch true ≠ .pass := by
-    unfold World.verdict
-    simp only []
-    cases hc : sysCheck w.sys true w.sysObs with
-    | none => rw [hc] at hs; cases hs
-    | some p =>
-      cases hf : flowCheck (w.ctrls res) (w.node res) w.nowMs batch <;>
-      cases hi : isoCheck (w.isoRules res) (w.node res) batch <;> simp
+  have hv := runChecks_blocked_of_sys w res batch true args atts hs
   unfold World.build
   simp only []
-  cases hv' : w.verdict res batch true with
+  cases hv' : (w.runChecks res batch true args atts).res with
   | pass => exact absurd hv' hv
   | blocked ty rule snap => simp
 
 /-- world level: a `build` is never reported as a system block for an outbound entry -/
-theorem outbound_never_system_blocked (w : World) (eid : Nat) (res : String) (batch : Nat) (rule snap : String) :
-    (w.build eid res batch false).2 ≠ .blocked "SystemFlow" rule snap := by
-  have hv : w.verdict res batch false ≠ .blocked "SystemFlow" rule snap := by
-    unfold World.verdict
+theorem outbound_never_system_blocked (w : World) (eid : Nat) (res : String) (batch : Nat)
+    (args : Option (List String)) (atts : Option (List (String × String))) (rule snap : String) :
+    (w.build eid res batch false args atts).2 ≠ .blocked "SystemFlow" rule snap := by
+  have hv : (w.runChecks res batch false args atts).res ≠ .blocked "SystemFlow" rule snap := by
+    unfold World.runChecks
     simp only [system_outbound_untouched]
-    cases hf : flowCheck (w.ctrls res) (w.node res) w.nowMs batch <;>
-    cases hi : isoCheck (w.isoRules res) (w.node res) batch <;> simp [World.isoBlockType]
+    cases hfs : flowSlot (w.ctrls res) (w.node res) w.nowNs batch with
+    | mk f rest1 =>
+      cases rest1 with
+      | mk t1 fb =>
+        simp only []
+        cases hhs : hsSlot w.hsSleepNs (w.hsCtrls res) t1 args atts batch with
+        | mk hsx rest2 =>
+          cases rest2 with
+          | mk t2 hb =>
+            simp only []
+            cases hbs : brSlot (w.breakers res) (t2 / 1000000) with
+            | mk brx rest3 =>
+              obtain ⟨bblocked, evs, hooks⟩ := rest3
+              simp only []
+              cases bblocked <;> cases hb <;> cases isoCheck (w.isoRules res) (w.node res) batch <;> cases fb <;>
+                simp [World.isoBlockType]
   unfold World.build
   simp only []
-  cases hv' : w.verdict res batch false with
+  cases hv' : (w.runChecks res batch false args atts).res with
   | pass => simp
   | blocked ty rule' snap' =>
     simp only [ne_eq]
